@@ -27,6 +27,8 @@ def run(tier):
         prog = Program.load(which=('SRC',), cfg=cfgname)
         eff = PathEffects(prog)
         kernels.run_factor(chk, 'C05.kern', prog, cfgname)
+        kernels.leading_dimension_agreement(chk, 'C05.ld', prog, [q + x for q in 'sdcz' for x in ('gstrs', 'gsrfs')] + ['sp_%sgemm' % q for q in 'sdcz'],
+                                            cfgname, floor=12)
         for g in ('equil', 'scale'):
             chk.clause('C05.' + g, 'R3 oracle group `%s` of ?gssvx' % g)
         chk.clause('C05.phases', 'R3 oracle group `phases` of ?gssvx')
